@@ -47,7 +47,7 @@ StepOn == /\ CanStepR(P, st, rt)
                 /\ PrintT(<<"OBS", sid, ToJson(ObsOf(P, st, pre, post))>>)
           /\ sid' = sid /\ fresh' = FALSE
 Finish == /\ ~CanStepR(P, st, rt)
-          /\ PrintT(<<"FIN", sid, ToJson([ast |-> st.ast, fin |-> st.fin, t |-> st.now, val |-> Sampled(P, st)])>>)
+          /\ PrintT(<<"FIN", sid, ToJson([ast |-> st.ast, fin |-> st.fin, tie |-> st.tie, t |-> st.now, val |-> Sampled(P, st)])>>)
           /\ sid < N
           /\ sid' = sid + 1 /\ fresh' = TRUE /\ mono' = TRUE
           /\ \E nxt \in { Begin(Scens[sid + 1]) } : st' = nxt /\ rt' = Rates(Scens[sid + 1], nxt)
